@@ -34,6 +34,7 @@ inductive Ast
   | comment (s : Bytes)
   | print (letters path : Bytes) (mods : List ModCall) (raw : Bool) (pre suf preKW sufKW : Bytes)
   | if_ (c : Cond) (thn : List Ast) (hasElse : Bool) (els : List Ast)
+  | ifok (var ok hlp : Bytes) (args : List Bytes) (ins : Bytes) (asKW not : Bool) (thn : List Ast) (hasElse : Bool) (els : List Ast)
   | ternary (letters : Bytes) (c : Cond) (t f : Bytes)
   | switch (arg : Bytes) (cases : List Ast) (hasDefault : Bool) (dfltAt : Nat) (dflt : List Ast)
   | case_ (c : Cond) (val : Bytes) (body : List Ast)
@@ -132,6 +133,11 @@ partial def pAst : P Ast := do
   | "if" => do
     let c ← pCond; let thn ← pList; let he ← pBool; let els ← pList
     pure (.if_ c thn he els)
+  | "ifok" => do
+    let var ← pHex; let okv ← pHex; let hlp ← pHex; let n ← pNat; let args ← pMany pHex n
+    let ins ← pHex; let asKW ← pBool; let nt ← pBool
+    let thn ← pList; let he ← pBool; let els ← pList
+    pure (.ifok var okv hlp args ins asKW nt thn he els)
   | "ternary" => do
     let letters ← pHex; let c ← pCond; let t ← pHex; let f ← pHex
     pure (.ternary letters c t f)
